@@ -109,13 +109,13 @@ func (valdec mapDecoder) decodeListAsMap(dec *Decoder, p interface{}, tag byte) 
 		return
 	}
 	mp := reflect2.PtrOf(p)
-	count := dec.ReadInt()
-	valdec.t.UnsafeSet(mp, valdec.t.UnsafeMakeMap(count))
+	count := dec.readCount()
+	valdec.t.UnsafeSet(mp, valdec.t.UnsafeMakeMap(dec.prealloc(count)))
 	dec.AddReference(p)
 	kp := valdec.kt.UnsafeNew()
 	vp := valdec.vt.UnsafeNew()
 	vt := valdec.vt.Type1()
-	for i := 0; i < count; i++ {
+	for i := 0; i < count && dec.Error == nil; i++ {
 		if i > 0 {
 			// a fresh value slot per entry: decoding into the previous entry's slot would
 			// reuse (and overwrite) its slice backing array, map or pointer target.
@@ -130,14 +130,14 @@ func (valdec mapDecoder) decodeListAsMap(dec *Decoder, p interface{}, tag byte) 
 
 func (valdec mapDecoder) decodeMap(dec *Decoder, p interface{}) {
 	mp := reflect2.PtrOf(p)
-	count := dec.ReadInt()
-	valdec.t.UnsafeSet(mp, valdec.t.UnsafeMakeMap(count))
+	count := dec.readCount()
+	valdec.t.UnsafeSet(mp, valdec.t.UnsafeMakeMap(dec.prealloc(count)))
 	dec.AddReference(p)
 	kp := valdec.kt.UnsafeNew()
 	vp := valdec.vt.UnsafeNew()
 	kt := valdec.kt.Type1()
 	vt := valdec.vt.Type1()
-	for i := 0; i < count; i++ {
+	for i := 0; i < count && dec.Error == nil; i++ {
 		if i > 0 {
 			// fresh key and value slots per entry: decoding into the previous entry's slots
 			// would reuse (and overwrite) its slice backing array, map or pointer target.
